@@ -216,10 +216,6 @@ pub struct UserModel<'a> {
     pause_evaluation: bool,
 }
 
-/// Given the index of the currently selected sheet, returns the index that same
-/// sheet occupies after the worksheet at `from` is moved to `to`. This lets the
-/// selection follow a sheet by identity across a reorder instead of pointing at
-/// whichever sheet lands in the old slot.
 /// Given the index of the currently selected sheet, returns the index of the
 /// sheet to select after the worksheet at `deleted` is removed from a workbook
 /// that had `sheet_count` sheets: the selection follows its sheet, and if the
@@ -234,6 +230,10 @@ pub(crate) fn selected_sheet_after_delete(selected: u32, deleted: u32, sheet_cou
     selected
 }
 
+/// Given the index of the currently selected sheet, returns the index that same
+/// sheet occupies after the worksheet at `from` is moved to `to`. This lets the
+/// selection follow a sheet by identity across a reorder instead of pointing at
+/// whichever sheet lands in the old slot.
 pub(crate) fn selected_sheet_after_move(selected: u32, from: u32, to: u32) -> u32 {
     if selected == from {
         return to;
